@@ -140,6 +140,12 @@ def bounded(sess: Session):
 
 
 def run(sess: Session):
+    # hypernym walks are built on Synset._iter_*relations and get_synset_relations: the synsets they hand out must
+    # carry their own lexicon / ILI / Wordnet (sets of synsets and their hashes depend on it)
+    from contracts import coreflows as _cf, querychecks as _qc
+    _cf.run_flows(sess, PROP, {'Synset__iter_local_relations', 'Synset__iter_expanded_relations',
+                               'Synset__iter_relations'})     # shared_relation_contracts
+    _qc.run_result_checks(sess, PROP, {'get_synset_relations'})
     from contracts import C12 as _c12
     for _ob in _c12.placeholder_identity_obligations():
         _ob.prop = PROP          # seen-sets / path sets of synsets rely on it to keep inferred placeholders apart
